@@ -562,6 +562,7 @@ pub fn drive_c05(a: &Args) {
                 m.insert("empty".into(), json!(empty));
                 m.insert("syn_empty".into(), json!(syn_empty));
                 m.insert("has_w".into(), json!(has_w));
+                m.insert("w_check".into(), json!(explore_ok(&f.t) || w.len() <= 24));
                 m.insert("w".into(), json!(w));
                 m.insert("w_in_re".into(), json!(inre));
                 m.insert("w_acc".into(), json!(acc));
@@ -731,6 +732,9 @@ fn empty_record(id: usize, f: &Fam, q: EmptyQ) -> Value {
     m.insert("empty".into(), json!(empty));
     m.insert("syn_empty".into(), json!(syn_empty));
     m.insert("has_w".into(), json!(has_w));
+    // membership of a long witness in a costly term is too expensive for the residual automaton: the other three
+    // witness facts (str_in_re, accepted by the compiled automaton, well-formed) are still judged
+    m.insert("w_check".into(), json!(explore_ok(&f.t) || w.len() <= 24));
     m.insert("w".into(), json!(w));
     m.insert("w_in_re".into(), json!(inre));
     m.insert("w_acc".into(), json!(acc));
